@@ -17,7 +17,8 @@ TECHNIQUE = ('W1 compile-time witness: the guard text emitted by DivNode.generat
              'domain (operator x explicit-signedness), instantiated for every signed C integer type of rank >= int with the operands (MIN, -1), (MIN, 1), (7, -1), (x, 0) and '
              'handed to `clang -fsyntax-only` as _Static_assert (clang as parser / constant evaluator; nothing is compiled to code or run); clang JSON AST of the specialised '
              'CMath.c helper for unguarded signed / and %; P2 dead-branch analysis of the Tempita conditions against the dispatch dictionary of the template; '
-             'save/restore dataflow for directive scopes; receiver analysis of the safety-directive reads')
+             'save/restore dataflow for directive scopes; receiver analysis of the safety-directive reads; OVF magnitude (interval) analysis of the expanded PyLongBinop '
+             'template on every path over the complete model space sizeof(long) x PyLong_SHIFT x digit count, with the constant bound taken from Optimize.py')
 DECIDES = ('C36-W1: for every operator handled by DivNode and its subclasses (/, //, %) and T in the signed integer types of rank >= int taken from PyrexTypes.rank_to_type_name: '
            'C leaves T_MIN / -1 and T_MIN % -1 undefined (C11 6.5.5p6), so either the guard the generator emits before the operation is true for (T_MIN, (T)-1) on the '
            'host data model — and false for (T_MIN, 1) and (7, -1) — or the C helper performing the operation (section loaded by the node, specialised for T) contains no '
@@ -28,8 +29,12 @@ DECIDES = ('C36-W1: for every operator handled by DivNode and its subclasses (/,
            'apply_directives on the scope object the phase reads (env for analyse_*, code.globalstate for generate_*/annotate, both for generate_function_definitions); '
            'every read of boundscheck / wraparound / initializedcheck / nonecheck in Cython/Compiler is made on a scoped mapping (<scope parameter>.directives, '
            '<code>.globalstate.directives, a visitor\'s current_directives, or a `directives` parameter that every caller fills from one of these). '
-           'C36-V3: visitors that rebind directives / current_directives restore the saved value.')
-NOT_DECIDED = ('everything a sanitizer would observe at run time: arithmetic inside the C helpers (overflow of i + size, shifts inside __Pyx_PyLong_* beyond the dead-branch check), '
+           'C36-V3: visitors that rebind directives / current_directives restore the saved value. '
+           'C36-OVF: for every operator of PyLongBinop whose result can exceed its operands (c_op + - *), both operand orders, sizeof(long) in {4, 8}, every PyLong_SHIFT of '
+           'longintrepr.h and every digit count, each signed + - * and unary - executed on a path of __Pyx_Unpacked_<name> has a result bound that fits the C type it is '
+           'evaluated in, where |digit| < 2**SHIFT, |pylong_join(N, ..)| < 2**(N*SHIFT) and |constant| <= the cut-off optimise_numeric_binop admits for that operator '
+           '(head-room tests `8*sizeof(T)-1 > N*PyLong_SHIFT[+h]` are evaluated, not pattern-matched: any equivalent formulation passes, any that admits an overflowing size fires).')
+NOT_DECIDED = ('everything a sanitizer would observe at run time: arithmetic inside the C helpers other than the + - * fast path of PyLongBinop (overflow of i + size, shifts inside __Pyx_PyLong_* beyond the dead-branch check, the / and % blocks whose q*b term needs relational reasoning), '
                'that the guard is emitted before the operation is evaluated, polarity of each directive read (C15/C16 decide it for the index paths), none checks (off by default), '
                'use-after-free and alignment. DESIGN clause (b) "I6 for bounds/wraparound flags" is NOT armed here: on the emitted calls that carry these flags the generic '
                'mutual-swap rule has 3 resolvable sites and cannot see a swap (C parameter has_cstart vs Python name has_c_start), while C15-FLAGS / C15-SLICE / C16-TPL decide '
@@ -65,10 +70,17 @@ MUTATIONS = [
     ('Cython/Compiler/Nodes.py', 'apply_directives: `obj.directives = old` -> `obj.directives = self.directives`', 'C36-SCOPE apply_directives'),
     ('Cython/Compiler/Nodes.py', 'CompilerDirectivesNode.analyse_expressions: body analysed after (outside) the with block', 'C36-SCOPE CompilerDirectivesNode.analyse_expressions'),
     ('Cython/Compiler/ExprNodes.py', 'MISSED (clause not armed, see NOT_DECIDED): SliceIndexNode GetSlice call with {has_c_start:d} / {has_c_stop:d} swapped — reported by C15-SLICE', '-'),
+    ('Cython/Utility/Optimize.c', 'seed C36a: PyLongBinop long long head-room test loses `+30` for multiplication', 'C36-OVF ovf:Multiply{ObjC,CObj}:size{2,3,4}:lla * llb'),
+    ('Cython/Compiler/Optimize.py', 'optimise_numeric_binop: cut-off `abs(numval.constant_result) > 2**30` -> `2**31`', 'C36-OVF ovf:Add*/Subtract*:size1:a + b / a - b (32-bit long)'),
+    ('Cython/Utility/Optimize.c', 'PyLongBinop calculate_long for `*`: `lla = a; goto calculate_long_long` -> `{ long x = a * b; return PyLong_FromLong(x); }`', 'C36-OVF ovf:Multiply*:size1:a * b'),
+    ('Cython/Utility/Optimize.c', 'PyLongBinop: head-room `+30` -> `+10` in both tests', 'C36-OVF ovf:Multiply*:size3:lla * llb'),
+    ('Cython/Utility/Optimize.c', 'PyLongBinop: long long test `{{_size}} * PyLong_SHIFT` -> `{{_size-1}} * PyLong_SHIFT`', 'C36-OVF ovf:Add*/Subtract*/Multiply*:size3'),
     ('Cython/Utility/CMath.c', 'FIX variant: ModInt `if (b == -1) return 0;` before `a %% b`', 'C36-W1 mod:* go silent'),
     ('Cython/Compiler/ExprNodes.py', 'FIX variant: guard `sizeof(%s) >= sizeof(int)` and __Pyx_UNARY_NEG_WOULD_OVERFLOW generalised', 'C36-W1 div:int goes silent'),
 ]
 SILENT_EDITS = [     # behaviour-preserving edits tried on the scratch copy: all 8 added no finding
+    'C36-OVF: head-room `+30` -> `+20` (still sufficient in every model); `8 * sizeof(long) - 1 >` -> `8 * sizeof(long) + 1 >` (admits the same sizes); test written '
+    '`N * PyLong_SHIFT+30 < 8 * sizeof(long) - 1 && N == size`; `llx = (lla) * (llb)`; `a *= -1` -> `a = -a`',
     'generate_div_warning_code: rename locals, turn the %-format of the guard into an f-string, reorder the conjuncts; zero test written `0 == (b)`',
     'Optimize.c: reorder rows of the c_op dictionary; `op == \'Rshift\' or op == \'Lshift\'` -> `op in (\'Lshift\', \'Rshift\')`',
     'apply_directives: `old, obj.directives = obj.directives, self.directives` ... try/finally around the yield',
@@ -641,5 +653,5 @@ def rule_scope(ctx):
 
 
 def run(ctx):
-    from ..rules import slicenorm
-    return [rule_w1(ctx), rule_p2(ctx), rule_scope(ctx), rule_V3_attr(ctx, rid='C36-V3'), slicenorm.rule_slice(ctx)]
+    from ..rules import slicenorm, sC36
+    return [rule_w1(ctx), rule_p2(ctx), rule_scope(ctx), rule_V3_attr(ctx, rid='C36-V3'), slicenorm.rule_slice(ctx), sC36.rule_ovf(ctx)]
